@@ -69,6 +69,26 @@ def check_dispatch(ctx):
   ctx.unit(f.module)
   CX, _lp, W, CODE = line_roles(f)
   tested = dsp.isinstance_classes(ix, f, CODE)
+  if not tested:
+    # the dispatch may live in a private method that receives the code (and the context): it is read there
+    for c_ in own_nodes(f.node):
+      if isinstance(c_, ast.Call) and isinstance(c_.func, ast.Attribute) and isinstance(c_.func.value, ast.Name) and c_.func.value.id in ("self", "cls") and f.cls is not None \
+          and any(isinstance(a_, ast.Name) and a_.id == CODE for a_ in c_.args):
+        g_ = ix.lookup_method(f.cls, c_.func.attr)
+        if g_ is None:
+          continue
+        off_ = 0 if g_.is_static else 1
+        names_ = {}
+        for i_, a_ in enumerate(c_.args):
+          if isinstance(a_, ast.Name) and i_ + off_ < len(g_.params):
+            names_[a_.id] = g_.params[i_ + off_]
+        if CODE in names_ and dsp.isinstance_classes(ix, g_, names_[CODE]):
+          f, CODE, CX = g_, names_[CODE], names_.get(CX, CX)
+          tested = dsp.isinstance_classes(ix, f, CODE)
+          break
+  if not tested:
+    ctx.undecide("DSP-line", f"{f.qualname}: no isinstance dispatch on the code of the word was found (restructured)")
+    return
   fc = ix.func("ttconv.scc.word:SccWord._find_code")
   classes = []
   for n in ast.walk(fc.node):
@@ -383,6 +403,7 @@ def run(ctx):
   # ';' time codes advance by SMPTE drop-frame labels: the frame arithmetic behind add_frames agrees with SMPTE ST 12-1 at the minute boundaries
   from . import c12 as _c12
   _c12.check_drop_frame_labels(ctx)
+  _c12.check_add_frames(ctx)
   common.check_item_handlers(ctx, ["ttconv.scc.reader", "ttconv.scc.line", "ttconv.scc.context", "ttconv.scc.word"])
   check_attribute_sets(ctx)
   from . import c12 as _c12
